@@ -580,13 +580,14 @@ pub fn hook_point(name: &'static str) {
 }
 
 pub fn hook_lock_acquire(name: &'static str, write: bool) {
-    if controlled() && hooks_on() && my_tid().is_some() {
+    // the wait for the worker threads (JoinHandle::join) blocks the OS thread, so the scheduler must always know about it
+    if controlled() && (hooks_on() || name == "JOIN") && my_tid().is_some() {
         park(Op::LockAcq(name, write));
     }
 }
 
 pub fn hook_lock_release(name: &'static str) {
-    if controlled() && hooks_on() {
+    if controlled() && (hooks_on() || name == "JOIN") {
         lock_release(name);
     }
 }
